@@ -226,6 +226,7 @@ def main() -> int:
         extras["known_finding_replays"] = driver.rerun_known(findings, prop)
         extras["cross_check"] = cross_check([o for o in obls if o.get("smt2")])
         extras["bounded_monitor"] = driver.bounded_monitor(prop, seed)
+        extras["assumed_contract_monitor"] = driver.assumed_contract_monitor()
     # ---- report ------------------------------------------------------------------------------------------
     for fid, (f, os_) in sorted(known_hits.items()):
         print(f"KNOWN-FINDING: property={prop} {fid}: {f['what_fails']} [{len(os_)} obligation(s), e.g. {os_[0]['name']}]")
@@ -288,6 +289,7 @@ def main() -> int:
             "bounded_parts": extras.get("bounded_monitor", {"note": "the bounded monitor runs in the thorough tier only; it is never counted towards `discharged`"}),
             "known_finding_replays": extras.get("known_finding_replays", []),
             "cross_check_other_solvers": extras.get("cross_check", {"note": "thorough tier only"}),
+            "assumed_contract_monitor": extras.get("assumed_contract_monitor", {"note": "thorough tier only: the assumed Semaphore/Task/gather/Queue contracts are cross-checked against the real interpreter on bounded histories"}),
         },
         "assumptions": trusted + registry.ASSUMED_CONTRACTS,
         "wall_s": wall,
@@ -299,7 +301,9 @@ def main() -> int:
           f"{len(still_unknown)} undecided, {len(units)} units, {wall}s")
     if violations:
         return 1
-    if crashed or extras.get("cross_check", {}).get("disagreements"):
+    if crashed or extras.get("cross_check", {}).get("disagreements") or extras.get("assumed_contract_monitor", {}).get("refuted"):
+        if extras.get("assumed_contract_monitor", {}).get("refuted"):
+            print("ASSUMED-CONTRACT-REFUTED:", extras["assumed_contract_monitor"]["refuted"])
         return 3
     if undecided_units or still_unknown or vacuous:
         return 2
